@@ -7,6 +7,8 @@ fn main() {
     let code = match args.id.as_str() {
         "C16" => hdmc::props::c16::run(&args),
         "C20" => hdmc::props::c20::run(&args),
+        "C19" => hdmc::props::c19::run(&args),
+        "C10" | "C11" => hdmc::props::hemc::run(&args, &args.id),
         other => {
             eprintln!("MACHINERY-ERROR unknown property {other}");
             2
